@@ -1,7 +1,7 @@
 #!/bin/bash
 # usage: try_seed_all.sh <patch.diff>: every check against a scratch copy with the change applied; prints the rules that report it
 P=$(realpath "$1")
-S=$(mktemp -d /tmp/xcm-seedall-XXXXXX)
+S=$(mktemp -d /tmp/vfscratch-seedall-XXXXXX)
 rsync -a --exclude .git --exclude '*.o' --exclude '*.lo' --exclude '*.la' --exclude .libs --exclude xcmtest --exclude autom4te.cache --exclude test --exclude python --exclude doc /repo/ $S/
 if ! ( cd $S && patch -p1 -s -F3 --no-backup-if-mismatch < "$P" ) > /dev/null 2>&1; then echo "$1: PATCH DOES NOT APPLY"; rm -rf $S; exit 3; fi
 cd /verif
